@@ -20,13 +20,15 @@ def main(sid):
     tests = glob.glob(d + '/*_test.go')
     for t in tests:
         pkg = re.search(r'(?m)^package (\w+)', open(t).read()).group(1)
-        dst = wt + ('/native/' if pkg.startswith('native') else '/')
+        sub = {'native': 'native/', 'native_test': 'native/', 'builtin': 'builtin/', 'builtin_test': 'builtin/', 'main': 'cmd/scriggo/',
+               'compiler': 'internal/compiler/', 'runtime': 'internal/runtime/', 'ast': 'ast/', 'astutil': 'ast/astutil/', 'astutil_test': 'ast/astutil/', 'ast_test': 'ast/'}.get(pkg, '')
+        dst = wt + '/' + sub
         name = os.path.basename(t)
         if not name.startswith('seed_'):
             name = 'seed_' + name
         shutil.copy(t, dst + name)
         fn = re.findall(r'func (Test\w+)\(', open(t).read())
-        demo_cmd = f"go test -count=1 -run '^({'|'.join(fn)})$' " + ('./native/' if pkg.startswith('native') else '.')
+        demo_cmd = f"go test -count=1 -run '^({'|'.join(fn)})$' ./" + sub
     for dm in glob.glob(d + '/demo*'):
         if os.path.isdir(dm):
             n = re.sub(r'\D', '', os.path.basename(dm))
